@@ -134,7 +134,9 @@ class CompiledSimulation(object):
         # If that's ever not the case, will need to pass in deep copies of them like done
         # for the normal Simulation so we retain the initial values that had.
         # (the trace keys initial memory contents by memory id, like Simulation does)
-        self.tracer._set_initial_values(default_value, self._regmap,
+        # (default_value is not applied to the memories here: unlisted words start at 0; the
+        # registers are all listed in _regmap)
+        self.tracer._set_initial_values(0, self._regmap,
                                         {mem.id: mem_map for mem, mem_map in self._memmap.items()})
 
         self._create_dll()
